@@ -265,9 +265,10 @@ type Node struct {
 }
 
 type PathElem struct {
-	Name  string // attribute / member name, ":value" or "#alias" word
-	Index int    // list index when IsIdx
-	IsIdx bool
+	Name   string // attribute / member name, ":value" or "#alias" word
+	Index  int    // list index when IsIdx
+	IsIdx  bool
+	IdxRef string // ":value" placeholder holding the index (minidyn extension)
 }
 
 type parser struct {
@@ -477,7 +478,11 @@ func (p *parser) operand() *Node {
 		case TLBrack:
 			p.next()
 			w := p.peek()
-			if w.K != TWord || !allDigits(w.S) || len(w.S) > 4 {
+			// minidyn's own extension, pinned by its tests ("a[:i]", ":list[:x]"): the index may be a value
+			// placeholder; what such a path means is not fixed by the property statements (IdxRef: unspecified)
+			// (the library's index production takes any operand word: ":i", an attribute name, a "#name")
+			byRef := w.K == TWord && !allDigits(w.S) && keyword(w) == ""
+			if !byRef && (w.K != TWord || !allDigits(w.S) || len(w.S) > 4) {
 				return p.fail()
 			}
 			p.next()
@@ -485,7 +490,11 @@ func (p *parser) operand() *Node {
 				return p.fail()
 			}
 			p.next()
-			n.Path = append(n.Path, PathElem{IsIdx: true, Index: atoi(w.S)})
+			if byRef {
+				n.Path = append(n.Path, PathElem{IsIdx: true, IdxRef: w.S})
+			} else {
+				n.Path = append(n.Path, PathElem{IsIdx: true, Index: atoi(w.S)})
+			}
 			continue
 		}
 		break
@@ -562,6 +571,9 @@ func (e *Env) resolve(n *Node) (v Val, present, spec bool) {
 		cur = x
 	}
 	for _, pe := range n.Path[1:] {
+		if pe.IsIdx && pe.IdxRef != "" {
+			return Val{}, false, false
+		}
 		if pe.IsIdx {
 			if cur.Kind != "L" {
 				return Val{}, false, false
